@@ -5,6 +5,7 @@ CONSTANTS
   Dev_NoSessionCheck = FALSE
   Dev_NilSession = FALSE
   Dev_UnknownItem = FALSE
+  Dev_BlockedFanout = FALSE
   SvcFilter = {}
 SPECIFICATION Spec
 INVARIANT InvEmit
